@@ -145,6 +145,7 @@ func (srv *Server) Serve() error {
 			//TODO: Return a shutdown error if shutdown has been requested
 			return err
 		}
+		verifYield("kmipserver.serve.accepted")
 		// A connection accepted while Shutdown is starting must not be registered once Shutdown
 		// waits for the connections (WaitGroup misuse, and a connection outliving Shutdown).
 		srv.mu.Lock()
